@@ -14,6 +14,7 @@ use opcua::crypto::SecurityPolicy;
 use opcua::server::comms::tcp_transport::TcpTransport;
 use opcua::server::config::{ServerEndpoint, ServerUserToken};
 use opcua::server::prelude::{Server, ServerBuilder};
+use opcua::core::config::Config;
 use opcua::sync::RwLock;
 use opcua::types::*;
 use std::collections::VecDeque;
@@ -78,6 +79,9 @@ pub struct ServerSpec {
     pub max_array_length: usize,
     pub max_string_length: usize,
     pub hello_timeout: u32,
+    /// per endpoint: user token ids (None = all) and password security policy
+    pub endpoint_tokens: Option<Vec<Vec<String>>>,
+    pub endpoint_password_policy: Option<Vec<Option<String>>>,
 }
 
 impl Default for ServerSpec {
@@ -96,6 +100,8 @@ impl Default for ServerSpec {
             max_array_length: 0,
             max_string_length: 0,
             hello_timeout: 5,
+            endpoint_tokens: None,
+            endpoint_password_policy: None,
         }
     }
 }
@@ -120,7 +126,17 @@ pub fn build_server(spec: &ServerSpec) -> Server {
         .discovery_urls(vec!["/".into()])
         .trust_client_certs();
     for (i, (p, m)) in spec.endpoints.iter().enumerate() {
-        b = b.endpoint(format!("ep{}", i), ServerEndpoint::new("/", *p, *m, &token_ids));
+        let ids = match &spec.endpoint_tokens {
+            Some(v) if i < v.len() => v[i].clone(),
+            _ => token_ids.clone(),
+        };
+        let mut ep = ServerEndpoint::new("/", *p, *m, &ids);
+        if let Some(pp) = &spec.endpoint_password_policy {
+            if i < pp.len() {
+                ep.password_security_policy = pp[i].clone();
+            }
+        }
+        b = b.endpoint(format!("ep{}", i), ep);
     }
     for (id, user, pass) in spec.users.iter() {
         b = b.user_token(
@@ -160,6 +176,9 @@ pub fn build_server(spec: &ServerSpec) -> Server {
     }
     config.tcp_config.hello_timeout = spec.hello_timeout;
     config.certificate_validation.check_time = true;
+    if !config.is_valid() {
+        panic!("harness error: generated server configuration is invalid");
+    }
     Server::new(config)
 }
 
